@@ -22,7 +22,7 @@ func init() {
 		Run:               runC16,
 		MinNonTrivial:     200,
 		MinEffectiveShare: 0.3,
-		RequiredEvents: map[string]int64{"entries_compared": 5000, "focus_present": 100, "focus_nsname": 100, "focus_shared": 30, "focus_absent": 50, "focus_nearname": 100, "real_workload_named_ingress_controller": 20,
+		RequiredEvents: map[string]int64{"entries_compared": 5000, "focus_present": 100, "focus_nsname": 100, "focus_shared": 30, "focus_absent": 50, "focus_nearname": 100, "real_workload_named_ingress_controller": 20, "focus_nsname_on_shared_name_with_both_targeted": 20,
 			"focus_ingress-controller": 50, "nothing_matches_cases": 100, "ingress_controller_lines_kept": 20, "focused_formats_parsed": 300},
 	})
 }
@@ -98,18 +98,29 @@ func runC16(c *run.Ctx) {
 		w = world.GenPrecedenceWorld(g, cfg)
 	default:
 		w = world.GenNPWorld(g, cfg)
-		world.GenIngressResources(g, w)
 	}
-	// a name shared by workloads in different namespaces
+	// a name shared by workloads in different namespaces (same kind most of the time)
 	shared := ""
+	must := []int{}
 	if g.P(0.5) && len(w.Workloads) >= 2 {
 		for i := 1; i < len(w.Workloads); i++ {
 			if w.Workloads[i].Ns != w.Workloads[0].Ns {
 				w.Workloads[i].Name = w.Workloads[0].Name
+				if g.P(0.7) {
+					o := w.Workloads[0]
+					w.Workloads[i].Kind, w.Workloads[i].Replicas, w.Workloads[i].OwnerKind, w.Workloads[i].NPods, w.Workloads[i].ExtraOwners = o.Kind, nil, o.OwnerKind, o.NPods, ""
+				}
 				shared = w.Workloads[0].Name
+				must = []int{0, i}
 				break
 			}
 		}
+	}
+	if c.Idx%4 >= 2 { // the Ingress/Route family; workloads sharing a name are both targeted half of the time
+		if g.P(0.5) {
+			must = nil
+		}
+		world.GenIngressResourcesTargeting(g, w, must)
 	}
 	// twins: a workload whose name ends with (and one whose namespace ends with) the name / namespace of another workload, so that a
 	// filter comparing anything looser than the whole name or the whole namespace/name form over-matches
@@ -142,6 +153,11 @@ func runC16(c *run.Ctx) {
 	class := rng.Pick(g, []string{"present", "present", "nsname", "nsname", "shared", "absent", "namespace", "prefix", "wrongns", "ingress-controller", "ingress-controller", "slash", "shared", "bareslash", "nearname", "nearname"})
 	if realIC && g.P(0.7) {
 		class = "ingress-controller"
+	}
+	if len(must) == 2 && c.Idx%4 >= 2 && g.P(0.6) { // both workloads of the shared name are Ingress/Route targets: focus on one of them by namespace/name
+		class = "nsname"
+		wl = w.Workloads[must[g.Intn(2)]]
+		r.Ev("focus_nsname_on_shared_name_with_both_targeted", 1)
 	}
 	focus := ""
 	switch class {
